@@ -1,3 +1,4 @@
+import re
 """C10 - time sorting is a permutation (structural clauses).
 
 Decided: L1 no live drop in the sorter (incl. L5: the heap is only dropped drained or after the
@@ -69,6 +70,8 @@ def run(F, chk):
     for b in stages:
         check_key_cap(b, O2)
     O2.floor('sort stage functions', len(stages), 1)
+    O3 = chk.rule('O3', 'the release threshold of the sorter is, on every path, the configured minimum delay, its previous value, or minimum + x (never below the minimum)')
+    check_threshold_floor(F, stages, O3)
 
 
 def check_key_cap(b, O2):
@@ -162,3 +165,92 @@ def phi_capped(cfg, E, b, v):
         if not ok:
             return None
     return 'every definition of %s is the reception time or a value guarded <= reception time' % v[1]
+
+
+# ---------------------------------------------------------------------------------------------
+# O3: the release threshold is never below the configured minimum delay
+
+def check_threshold_floor(F, stages, O3):
+    from expr import ExprBuilder, show
+    """The ordering half of the property needs every buffered message to be held at least `min_buffer_delay_us`: the release
+    threshold local of the sorter (compared as  calculated + threshold < reception  in the drain loop) must be >= the minimum
+    on every path.  Structural form that makes this true by construction (unsigned arithmetic): every definition of the
+    threshold is the minimum itself, the previous threshold, or `minimum + something` - including every return value of
+    the closure that recomputes it."""
+    n = 0
+    for b in stages:
+        cfg = CFG(b)
+        E = ExprBuilder(cfg, fold_named=True)
+        # the threshold: named local added to the heap key in the drain comparison `Lt(Add(key, T), recv)`
+        thr = None
+        for blk in b.blocks:
+            if blk.cleanup or blk.term.k != 'switch':
+                continue
+            c = E.switch_cond(blk)
+            if isinstance(c, tuple) and c[0] == 'bin' and c[1] in ('Lt', 'Le', 'Gt', 'Ge'):
+                for side in (c[2], c[3]):
+                    if isinstance(side, tuple) and side[0] == 'bin' and side[1] == 'Add' and 'calculated_time_us' in show(side):
+                        for x in (side[2], side[3]):
+                            if isinstance(x, tuple) and x[0] == 'place' and len(x) == 2 and 'calculated_time_us' not in show(x):
+                                thr = x[1]
+        if thr is None:
+            O3.violation(('anchor-lost', 'threshold', b.path), 'cannot find the release comparison `key + threshold < reception time` in ' + b.path)
+            continue
+        O3.fn(b.path)
+        ls = b.locals_named(thr)
+        minname = None
+
+        def form(e, params_ok=()):
+            """'min' | 'prev' | 'min+x' | None"""
+            se = show(e)
+            if re.search(r'min_buffer_delay_us\)?\)?$', se) and not se.startswith('Add('):
+                return 'min'
+            if isinstance(e, tuple) and e[0] == 'place' and len(e) == 2 and (e[1] == thr or e[1] in params_ok):
+                return 'prev'
+            if isinstance(e, tuple) and e[0] == 'bin' and e[1] == 'Add' and (form(e[2], params_ok) == 'min' or form(e[3], params_ok) == 'min'):
+                return 'min+x'
+            return None
+        for l in ls:
+            for (bi, si, d) in cfg.defs.get(l, []):
+                n += 1
+                O3.sites += 1
+                if si != 'call' and d.rv['k'] == 'use':
+                    from facts import Operand
+                    o = Operand(d.rv['o'])
+                    if o.place is not None and o.place.is_local:
+                        sd = cfg.single_def(o.place.l)
+                        if sd is not None and sd[1] == 'call':
+                            si, d = 'call', sd[2]     # `thr = move _t` with `_t = recompute(..)`
+                if si != 'call':
+                    f = form(E.rvalue(d.rv))
+                    if f:
+                        O3.ok(sample={'threshold': thr, 'definition': show(E.rvalue(d.rv))[:60], 'form': f})
+                    else:
+                        O3.violation(('threshold-below-minimum', b.path, 'direct'), 'the release threshold `%s` is set to %s at %s, which is not of the form minimum / previous value / minimum + x' % (thr, show(E.rvalue(d.rv))[:80], b.loc(d.sp)), where=b.loc(d.sp))
+                    continue
+                cl = F.get(d.callee.resolved) if d.callee.resolved else None
+                if cl is None:
+                    O3.violation(('threshold-opaque', b.path), 'the release threshold `%s` is assigned from %s which cannot be resolved' % (thr, d.callee.path), where=b.loc(d.sp))
+                    continue
+                O3.fn(cl.path)
+                ccfg = CFG(cl)
+                cE = ExprBuilder(ccfg, fold_named=True)
+                # the closure parameter that receives the previous threshold: first tuple element of the call
+                prev_param = cl.name_of(2) if cl.kind == 'closure' else cl.name_of(1)
+                bad = None
+                nret = 0
+                for (rb, rsi, rd) in ccfg.defs.get(0, []):
+                    nret += 1
+                    if rsi == 'call':
+                        bad = (rb, 'result of ' + rd.callee.path)
+                        continue
+                    f = form(cE.rvalue(rd.rv), params_ok=(prev_param,))
+                    if not f:
+                        bad = (rb, show(cE.rvalue(rd.rv))[:80])
+                if bad is None and nret:
+                    O3.ok(sample={'threshold': thr, 'recomputed_by': cl.path, 'return_definitions': nret, 'each': 'previous value or minimum + x'})
+                else:
+                    O3.violation(('threshold-below-minimum', b.path, 'recompute'),
+                                 'the closure %s that recomputes the release threshold can return %s, which is not the previous threshold and not `min_buffer_delay_us + x`: messages can be released before the configured minimum '
+                                 'delay has passed, so a later message with a smaller calculated time is delivered out of order' % (cl.path, bad[1] if bad else 'nothing'), where=cl.loc(None))
+    O3.floor('definitions of the release threshold', n, 2)
